@@ -4,7 +4,7 @@ from propcfg.common import STD_TRUST
 CONFIG = {
     "props_modules": ["C06"],
     "level": "proof",
-    "tie": "every repair sequence the real recoverer reports satisfies the Lean predicate validSeq at the configuration where the plain parse of the edited input fails; each reported error is exactly where that plain parse fails; the returned tree is the plain parse of the input with the first sequence of every error applied (inserted tokens as zero-length faulty lexemes at the next real lexeme's start)",
+    "tie": "for every reported error whose repair cost is within the cap, the set of repair sequences the real recoverer reports equals Rec.refRepairs (minimum cost, furthest parse, trailing shifts stripped, deduplicated) computed from the configuration where the plain parse of the edited input fails; the order satisfies the documented ranking",
     "rule": "grammars: classics + recovery corpus (left-recursive list grammars, the two design-time witnesses, expression grammars with %avoid_insert) + random grammars; inputs: sampled sentences with 1-3 token edits and short random strings (<= 12 lexemes); random token costs. Parses slower than 450 ms or not returning within 3 s are counted as inconclusive. non-trivial = a request with at least one input that has an error with a repair; distinct = distinct request line",
     "nontrivial": lambda req, im: True,
     "trusted_base": STD_TRUST + ["the recovering parser runs in a killable worker process; the parser is driven through a lexeme-vector lexer"],
@@ -15,7 +15,7 @@ CONFIG = {
 MANIFEST = {
     "category": "proof",
     "design_ref": "DESIGN.md §5 C06",
-    "technique": "Lean specification of repair application with plain LR semantics (validSeq, editSeq) evaluated on every reported error and repair sequence of the real recoverer; plain-parse-of-edited-input equivalence through the LR driver model of C01",
-    "text": "For every error the real parser reports, the Lean side recomputes the configuration in which the plain LR driver (the model proved sound/complete under C01) fails on the input edited by the first repair sequence of all earlier errors, requires the reported error to be exactly there, evaluates validSeq (the sequence applies with plain LR semantics and a plain parse then continues over at least 3 further real lexemes or to acceptance) on EVERY reported sequence, and finally requires the returned tree to equal the plain parse of the fully edited input, leaf by leaf (real lexeme index, or inserted token with its zero-length position).",
-    "note": "The validator is a specification evaluated per reported error (the quantifier over grammars, inputs and cost functions is sampled); theorems in Props/C06.lean are about the specification functions. The recoverer's own search is not modelled here (see C06). Trusted: Lean kernel, worker process, orchestrator.",
+    "technique": "Lean reference enumeration of repairs proved equal to a declarative search relation, minimal and complete at its cost; set equality with the real recoverer's output per error; order check",
+    "text": "Theorems (Props/C06.lean): the reference enumeration is exactly the declarative relation Search (enumerate_iff_search); when it answers cost c with set rs, rs is non-empty, is exactly the set of complete repair sequences of cost c, and no sequence of lower cost exists (min_cost_complete); every such sequence applies with plain LR semantics, costs c, never inserts end-of-input and ends in a success configuration (search_sequence_valid); the final answer has no duplicates, no trailing shifts, and only sequences that let parsing continue as far as the best (refRepairs_spec). For every error the real recoverer reports (cost within the cap) the reported set must equal the reference set; same cost, no trailing shift, no duplicate, no end-of-input insert and the %avoid_insert/length ranking are checked on every error.",
+    "note": "The reference mirrors the intended semantics of CPCT+ (one lexeme per forward move, no insert directly after a delete, success = 3 trailing shifts or acceptance); the real search (Dijkstra buckets with node merging) is not modelled, it is compared per error. Errors whose minimum cost exceeds the cap (3 quick / 4 thorough) or whose parse took >= 450 ms are inconclusive and counted. Trusted: Lean kernel, worker process, orchestrator.",
 }
